@@ -122,35 +122,36 @@ def fromMatches (sp : StripFn) (fromT : Option Test) (l : Loc) : Bool :=
   | some f => patMatches sp f l
   | none => false
 
-/-- `ElemNumber::findPrecedingOrAncestorOrSelf` -/
-def findTargetAny (sp : StripFn) (countT : Test) (fromT : Option Test) : Nat → Loc → Option Loc
-  | 0, _ => none
-  | fuel + 1, pos =>
-    if fromMatches sp fromT pos then none
+/-- one step back in document order, as both walks take it: the last descendant of the previous sibling
+("dive down to the lowest right-hand child"), else the parent -/
+def stepBack (fuel : Nat) (pos : Loc) : Option Loc :=
+  match pos.prevSibling with
+  | some sib => some (deepestLast fuel sib)
+  | none => pos.parent?
+
+/-- `ElemNumber::findPrecedingOrAncestorOrSelf`: the `from` pattern is not tested on the context node itself
+(`thePos != context`), on every other node visited it ends the search -/
+def findTargetAny (sp : StripFn) (countT : Test) (fromT : Option Test) : Nat → Bool → Loc → Option Loc
+  | 0, _, _ => none
+  | fuel + 1, isContext, pos =>
+    if !isContext && fromMatches sp fromT pos then none
     else if patMatches sp countT pos then some pos
     else
-      match pos.prevSibling with
-      | none =>
-        match pos.parent? with
-        | none => none
-        | some p => findTargetAny sp countT fromT fuel p
-      | some sib => findTargetAny sp countT fromT fuel (deepestLast fuel sib)
+      match stepBack fuel pos with
+      | none => none
+      | some p => findTargetAny sp countT fromT fuel false p
 
-/-- `ElemNumber::getPreviousNode`, `eAny == m_level` branch -/
+/-- `ElemNumber::getPreviousNode`, `eAny == m_level` branch: one step back in document order (last descendant
+of the previous sibling, else the parent); every node walked over is tested against `from` ("return 0 from
+function"), then against `count` -/
 def getPreviousNodeAny (sp : StripFn) (countT : Test) (fromT : Option Test) : Nat → Loc → Option Loc
   | 0, _ => none
   | fuel + 1, pos =>
-    match pos.prevSibling with
-    | none =>
-      match pos.parent? with
-      | none => none
-      | some next =>
-        if next.isDocument || fromMatches sp fromT next then none      -- "return 0 from function"
-        else if patMatches sp countT next then some next
-        else getPreviousNodeAny sp countT fromT fuel next
-    | some sib =>
-      let next := deepestLast fuel sib
-      if patMatches sp countT next then some next
+    match stepBack fuel pos with
+    | none => none
+    | some next =>
+      if fromMatches sp fromT next then none
+      else if patMatches sp countT next then some next
       else getPreviousNodeAny sp countT fromT fuel next
 
 /-- `CountersTable::countNode` without its cache: the length of the chain target, previous, previous, … -/
@@ -162,11 +163,11 @@ def chainLength (sp : StripFn) (countT : Test) (fromT : Option Test) : Nat → L
     | some p => 1 + chainLength sp countT fromT fuel p
 
 def numberAny (sp : StripFn) (countT : Test) (fromT : Option Test) (fuel : Nat) (l : Loc) : Nat :=
-  match findTargetAny sp countT fromT fuel l with
+  match findTargetAny sp countT fromT fuel true l with
   | none => 0
   | some t => chainLength sp countT fromT fuel t
 
-/-! ### xsl:number level="any" without `from`: the Recommendation's reading -/
+/-! ### xsl:number level="any": the Recommendation's reading -/
 
 /-- every node before the one at `⟨focus, path⟩` in document order — preceding nodes and ancestors — nearest
 first (reverse document order), up to but excluding the document node -/
@@ -179,25 +180,28 @@ def beforeAux : Node → List Frame → List Loc
 
 def Loc.before (l : Loc) : List Loc := beforeAux l.focus l.path
 
-/-- XSLT §7.7 level="any": "the number of nodes that match the count pattern and … are the current node or
-before it in document order" (no `from`).  This is what the backwards walk `findTargetAny`/`chainLength`
-computes when `from` is absent: it visits `l :: l.before` in this order and counts the matching nodes. -/
-def numberAnySpec (sp : StripFn) (countT : Test) (l : Loc) : Nat :=
-  ((l :: l.before).filter (patMatches sp countT)).length
+/-- XSLT §7.7 level="any": the nodes that match the count pattern among the current node and the nodes before it
+in document order — "starting after the first node before the current node that matches the from pattern" when
+there is one. -/
+def numberAnySpec (sp : StripFn) (countT : Test) (fromT : Option Test) (l : Loc) : Nat :=
+  ((l :: l.before.takeWhile fun x => !fromMatches sp fromT x).filter (patMatches sp countT)).length
 
 /-! ### xsl:number level="single" / level="multiple" -/
 
 /-- `ElemNumber::getMatchingAncestors(node, stopAtFirstFound)` over the node and its ancestors (nearest first):
-a node matching `from` ends the walk — except with `stopAtFirstFound` (level single), where the walk goes on
-(the source comment calls that a probable bug; mirrored as written); a node matching `count` is collected, and
-with `stopAtFirstFound` the walk ends there. -/
-def matchingAncestors (sp : StripFn) (countT : Test) (fromT : Option Test) (single : Bool) : List Loc → List Loc
-  | [] => []
-  | n :: rest =>
-    if fromMatches sp fromT n && !single then []
+an ancestor matching `from` ends the walk (the context node itself is not tested, `node != theContextNode`); a
+node matching `count` is collected, and with `stopAtFirstFound` (level single) the walk ends there. -/
+def matchingAncestorsFrom (sp : StripFn) (countT : Test) (fromT : Option Test) (single : Bool) :
+    Bool → List Loc → List Loc
+  | _, [] => []
+  | isContext, n :: rest =>
+    if !isContext && fromMatches sp fromT n then []
     else if patMatches sp countT n then
-      (if single then [n] else n :: matchingAncestors sp countT fromT single rest)
-    else matchingAncestors sp countT fromT single rest
+      (if single then [n] else n :: matchingAncestorsFrom sp countT fromT single false rest)
+    else matchingAncestorsFrom sp countT fromT single false rest
+
+def matchingAncestors (sp : StripFn) (countT : Test) (fromT : Option Test) (single : Bool) (L : List Loc) : List Loc :=
+  matchingAncestorsFrom sp countT fromT single true L
 
 /-- `ElemNumber::getPreviousNode`, single/multiple branch, iterated by `CountersTable::countNode`: from the
 target walk `getPreviousSibling()`; every sibling matching `count` is one more member of the chain.  The
